@@ -9,6 +9,7 @@ RULE = ("one transmitting RF24 and one receiving RF24 (six pipes open) on a simu
         "list with a concurrently polling peer thread, SPI flavour); unique-id payloads. "
         "Non-trivial: a payload was loaded into the radio or a rejection was observed; "
         "distinct = distinct abstract case tuples (payload contents abstracted).")
+RULE += (" Later rounds added: ping-pong role swaps, write()-until-refused streaming, set-up histories between opening the pipes and the traffic (role round trips, with re-entry, late address width, sender's own pipe-0 address, short re-open), blind read()-until-None drains, per-pipe static length styles.")
 REQUIRED = {"bus_bytes": 500, "peer_read": 500, "buffer_unmodified": 500, "rejection_state": 20,
             "exactly_once": 500, "pipe_attribution": 500}
 ASSUMPTIONS = ["configurations respect the documented ARD/data-rate constraint",
